@@ -30,6 +30,16 @@ def run(ctx):
         files = S.simulate(ctx, kind + '-late', c2, num=num, depth=90, seed=ctx.seed + 6, next_='NextAbort')
         res += S.replay_all(ctx, files[::2], kind, c2, opts={'bytes_check': True}, tag='late')
         if kind == 'file':
+            # the third bundled storage: the same abort-heavy behaviours through a DemoStorage over this FileStorage
+            # (behaviours with deletions are left out: a demo storage has no deleteObject)
+            def plain(f):
+                txt = open(f).read()
+                return 'Delete' not in txt and 'Pack' not in txt
+            first = [f for f in S.simulate(ctx, kind + '-demo', c, num=num // 2, depth=60, seed=ctx.seed + 15, next_='NextAbort') if plain(f)]
+            rd = S.replay_all(ctx, first, kind, c, opts={'wrap_demo': True}, tag='demo')
+            cov['over_demo_storage'] = len(rd)
+            res += rd
+        if kind == 'file':
             # a reader racing with the vote (sparse observation, records spread over several read buffers)
             res += S.replay_all(ctx, files[1::2], kind, c2, opts={'sparse': True, 'pad': 3000}, tag='race')
         if kind == 'file':
@@ -64,6 +74,7 @@ def run(ctx):
         cov[kind]['sample'] = res[0]['sig'][:25]
     nf = cov.pop('faults_injected', 0)
     nq = cov.pop('quota_refusals', 0)
+    nd = cov.pop('over_demo_storage', 0)
     ev = sum(v['behaviours'] for v in cov.values())
     return ctx.finish({
         'evaluations': ev,
@@ -76,7 +87,7 @@ def run(ctx):
                 'specification gives; non-trivial = contains an abort and a commit',
         'traces_validated_against_impl': ev,
         'per_storage': cov,
-        'vote_faults_injected': nf, 'stores_refused_by_quota': nq,
+        'vote_faults_injected': nf, 'stores_refused_by_quota': nq, 'behaviours_over_demo_storage': nd,
         'samples': [cov[k]['sample'] for k in cov],
         'exhaustive': False,
     }, ASSUME)
